@@ -2,7 +2,10 @@ package main
 
 import (
 	"fmt"
+	"os"
+	"runtime"
 	"go/types"
+	"regexp"
 	"sort"
 	"strings"
 )
@@ -428,6 +431,11 @@ func (e *Enc) havoc(st *State, name string) {
 
 // havocClass gives every heap of the class (including ones not used yet) a fresh version.
 func (e *Enc) havocClass(st *State, class int) {
+	if os.Getenv("GOVC_DEBUG") == "2" {
+		buf := make([]byte, 3000)
+		n := runtime.Stack(buf, false)
+		fmt.Fprintf(os.Stderr, "havocClass(%d) probe=%d\n%s\n", class, e.probe, buf[:n])
+	}
 	// EXCL is thread-local ghost state: it changes only through Lock/Unlock/allocation
 	// Channel state changes only through explicit channel operations, callees that declare
 	// "modifies chans", or unknown callees that are handed a channel (see havocOutside).
@@ -633,4 +641,22 @@ func num(n int64) string {
 		return fmt.Sprintf("(- %d)", -n)
 	}
 	return fmt.Sprintf("%d", n)
+}
+
+var identRe = regexp.MustCompile(`[A-Za-z_][A-Za-z0-9_!@.]*`)
+
+var smtBuiltins = map[string]bool{"select": true, "store": true, "sarr": true, "soff": true, "slen": true, "scap": true,
+	"ityp": true, "ival": true, "mk_slice": true, "mk_iface": true, "ite": true, "and": true, "or": true, "not": true,
+	"true": true, "false": true, "as": true, "const": true, "Array": true, "Int": true, "Bool": true, "div": true, "mod": true}
+
+// termDeclared reports whether all symbols of the term are currently declared (i.e. the term
+// is meaningful outside the probe in which it was recorded).
+func (e *Enc) termDeclared(t string) bool {
+	for _, id := range identRe.FindAllString(t, -1) {
+		if smtBuiltins[id] || e.declared[id] {
+			continue
+		}
+		return false
+	}
+	return true
 }
